@@ -26,6 +26,7 @@ from .. import sanitize, trace, util
 from .c09 import WMat
 
 SHARDS = {'quick': 8, 'thorough': 16}
+THOROUGH_ROUNDS = 3
 S = odl.solvers
 
 
@@ -422,6 +423,73 @@ def run_stepsizes(ctx):
                     ctx.violation('douglas_rachford_pd_stepsize', 'given=%s;ops=%d' % (given, nops), 'raises:' + type(e).__name__, message=str(e)[:200])
 
 
+def run_overiteration(ctx):
+    """Krylov solvers run far beyond the dimension (3-4 x dim iterations) on many tiny problems: after convergence the
+    recurrences operate on rounding noise; the residual / energy error must still never increase and the converged solution
+    must survive.  Breakdowns are rare events (order 1e-4 per problem), so the reach comes from the number of problems."""
+    N = 1000 if not ctx.thorough else 2500
+    rng = ctx.rng('overiteration')
+    for t in range(N):
+        n = int(rng.integers(1, 7))
+        m = n + int(rng.integers(0, 4))
+        dt = 'float64' if t % 4 else 'float32'
+        tol = 1e-6 if dt == 'float64' else 2e-2
+        Am = rng.normal(size=(m, n)).astype(dt)
+        X, Y = odl.rn(n, dtype=dt), odl.rn(m, dtype=dt)
+        A = odl.MatrixOperator(Am, X, Y)
+        ba = (Am @ rng.normal(size=n) + (0.1 * rng.normal(size=m) if t % 3 else 0.0)).astype(dt)
+        b = Y.element(ba)
+        niter = int(rng.integers(2 * n + 1, 4 * n + 2))
+        cfg = '%s;overiterated' % dt
+        if t % 50 == 0:
+            ctx.case('overiteration;cgn;%s' % dt, t)
+        r = trace.Recorder()
+        x = X.zero()
+        try:
+            S.conjugate_gradient_normal(A, x, b, niter, callback=r)
+        except Exception as e:
+            ctx.violation('conjugate_gradient_normal', cfg, 'raises:' + type(e).__name__, message=str(e)[:200])
+            continue
+        A64, b64 = Am.astype(float), ba.astype(float)
+        rs = [np.linalg.norm(A64 @ np.asarray(it, dtype=float) - b64) for it in [np.zeros(n)] + r.iterates]
+        ctx.ev('monotone')
+        xls = np.linalg.lstsq(A64, b64, rcond=None)[0]
+        # fluctuations at the rounding level of the residual itself (eps * (|A| |x| + |b|)) are not increases
+        slack = 64 * float(np.finfo(dt).eps) * (np.linalg.norm(A64, 2) * np.linalg.norm(xls) + rs[0])
+        k = next((i for i in range(1, len(rs)) if rs[i] > rs[i - 1] * (1 + (1e-9 if dt == 'float64' else 1e-4)) + slack), None)
+        if k is not None:
+            ctx.violation('conjugate_gradient_normal', cfg, 'monotone:residual-increased', at=k, n=n, m=m, niter=niter, residuals=rs[max(0, k - 2):k + 2])
+        if np.linalg.cond(A64) < 30:
+            ctx.ev('bounded-progress')
+            e = np.linalg.norm(np.asarray(x, dtype=float) - xls) / max(1e-12, np.linalg.norm(xls))
+            if not e <= tol:
+                ctx.violation('conjugate_gradient_normal', cfg, 'progress', rel=float(e), n=n, m=m, niter=niter)
+        # plain CG on the SPD normal matrix
+        Q = (A64.T @ A64 + 1e-3 * np.eye(n)).astype(dt)
+        Qop = odl.MatrixOperator(Q, X, X)
+        xs = rng.normal(size=n)
+        rhs = X.element((Q.astype(float) @ xs).astype(dt))
+        r = trace.Recorder()
+        x = X.zero()
+        try:
+            S.conjugate_gradient(Qop, x, rhs, niter, callback=r)
+        except Exception as e:
+            ctx.violation('conjugate_gradient', cfg, 'raises:' + type(e).__name__, message=str(e)[:200])
+            continue
+        Q64 = Q.astype(float)
+        xe = np.linalg.solve(Q64, np.asarray(rhs, dtype=float))
+        en = [float(xe @ Q64 @ xe)] + [float((np.asarray(it, dtype=float) - xe) @ Q64 @ (np.asarray(it, dtype=float) - xe)) for it in r.iterates]
+        ctx.ev('monotone')
+        slack = 1e-14 if dt == 'float64' else 1e-5
+        k = next((i for i in range(1, len(en)) if en[i] > en[i - 1] * (1 + 1e-8) + slack * en[0]), None)
+        if k is not None:
+            ctx.violation('conjugate_gradient', cfg, 'monotone:energy-error-increased', at=k, n=n, niter=niter)
+        if np.linalg.cond(Q64) < 1e3:
+            ctx.ev('bounded-progress')
+            if not en[-1] <= (1e-12 if dt == 'float64' else 1e-4) * max(en[0], 1e-300):
+                ctx.violation('conjugate_gradient', cfg, 'progress', rel=float(np.sqrt(en[-1] / max(en[0], 1e-300))), n=n, niter=niter)
+
+
 def run(ctx):
     ctx.note('rule', 'one case = one seeded problem instance (solver family x plain / constant-weighted space x conditioning class '
                      'x planted problem kind x number of operator blocks x step rule x start point); conditioning classes, '
@@ -433,6 +501,7 @@ def run(ctx):
     idx = run_linear(ctx, 0)
     idx = run_planted(ctx, idx)
     idx = run_illconditioned(ctx, idx)
+    run_overiteration(ctx)
     if ctx.shard == 0:
         run_stepsizes(ctx)
     for m in ('monotone', 'bounded-progress', 'kkt', 'fixed-point', 'opnorm'):
